@@ -41,6 +41,7 @@ class Body:
         self.max_depth = max_depth
         self.counter = 0
         self.nested: list[FnSig] = []
+        self.readonly: set[str] = set()   # captured variables may not be assigned to
 
     # ---- expressions
     def fresh(self, prefix: str = "v") -> str:
@@ -56,6 +57,8 @@ class Body:
         k = ch.draw(12, "e")
         if depth >= 2:
             k = k % 4
+        if ty.startswith("lit:"):
+            return ty[4:]
         if ty == "int":
             if k < 3 and vs:
                 return ch.pick(vs, "ev")
@@ -74,8 +77,12 @@ class Body:
                 for s in self.g.structs:
                     svs = self.vars_of(env, s["name"])
                     ints = [f for f, t in s["fields"] if t == "int"]
+                    if svs and s["methods"] and ch.draw(2, "meth"):
+                        return f"{ch.pick(svs, 'sv')}.meth({self.expr(env, 'int', depth + 1)})"
                     if svs and ints:
                         return f"{ch.pick(svs, 'sv')}.{ch.pick(ints, 'sf')}"
+                if ch.draw(2, "ct_expr"):
+                    return f"comptime({ch.draw(5, 'c1')} + {ch.draw(5, 'c2')})"
             if k == 11:
                 avs = self.vars_of(env, "array[int, 3]")
                 if avs:
@@ -116,6 +123,13 @@ class Body:
             return f"({self.expr(env, 'int', depth + 1)}, {self.expr(env, 'bool', depth + 1)})"
         if ty == "array[int, 3]":
             # arrays are not copyable: never alias a variable, always build a fresh one
+            if k >= 9:
+                it = self.fresh("c")
+                e2 = dict(env)
+                e2[it] = "int"
+                ivs = self.vars_of(env, "int")
+                el = f"({it} + {ch.pick(ivs, 'cv') if ivs and ch.draw(2, 'cvar') else ch.draw(9, 'clit')})"
+                return f"array({el} for {it} in range(3))"
             return "array(%s, %s, %s)" % tuple(self.expr(env, "int", depth + 1) for _ in range(3))
         for s in self.g.structs:
             if s["name"] == ty:
@@ -154,7 +168,7 @@ class Body:
             k = ch.draw(24, "s")
             if k < 6:
                 ty = self.some_type()
-                vs = self.vars_of(env, ty)
+                vs = [v for v in self.vars_of(env, ty) if v not in self.readonly]
                 if vs and ch.draw(2, "reassign"):
                     v = ch.pick(vs, "tv")
                 elif depth == 0 or True:
@@ -163,7 +177,7 @@ class Body:
                 env[v] = ty
             elif k < 8:
                 ty = ch.pick(("int", "float"), "augty")
-                vs = self.vars_of(env, ty)
+                vs = [v for v in self.vars_of(env, ty) if v not in self.readonly]
                 if vs:
                     out.append(f"{ch.pick(vs, 'tv')} {ch.pick(('+=', '-=', '*='), 'aug')} {self.expr(env, ty)}")
                 else:
@@ -224,6 +238,11 @@ class Body:
                 avs = self.vars_of(env, "array[int, 3]")
                 out.append(f"{ch.pick(avs, 'av')}[{ch.draw(3, 'ai')}] = {self.expr(env, 'int')}"
                            if avs else "pass")
+            elif k == 18 and False:
+                pass
+            elif k == 22 and ch.draw(2, "res_or_walrus"):
+                ty = ch.pick(SCALARS, "res_ty")
+                out.append(f"result(\"t{ch.draw(3, 'tag')}\", {self.expr(env, ty)})")
             elif k == 22:
                 v = self.fresh("w")
                 out.append(f"{self.fresh()} = ({v} := {self.expr(env, 'int')}) + 1")
@@ -237,11 +256,16 @@ class Body:
         ch = self.ch
         q1, q2 = self.fresh("q"), self.fresh("q")
         out = [f"{q1} = qubit()", f"h({q1})"]
+        if self.g.qhelpers and ch.draw(2, "qh"):
+            out.append(f"{self.g.prefix}qgate({q1})")
         two = ch.draw(2, "two_q")
         if two:
             out += [f"{q2} = qubit()", f"cx({q1}, {q2})"]
         b = self.fresh("m")
-        out.append(f"{b} = measure({q1})")
+        if self.g.qhelpers and ch.draw(2, "qm"):
+            out.append(f"{b} = {self.g.prefix}qmeas({q1})")
+        else:
+            out.append(f"{b} = measure({q1})")
         env[b] = "bool"
         if two:
             out.append(f"discard({q2})" if ch.draw(2, "disc") else f"{self.fresh('m')} = measure({q2})")
@@ -273,6 +297,7 @@ class Body:
         sub = Body(self.g, FnSig(name, [(p, "int")], "int"), self.callees, min(self.budget, 4),
                    1)
         sub.counter = self.counter + 100
+        sub.readonly = set(caps) | self.readonly
         lines = sub.block(body_env, 1, False)
         ret = self.expr(body_env, "int", 1)
         if kind >= 2:
@@ -406,6 +431,8 @@ class ProgGen:
         self.params = params or {}
         self.structs: list[dict] = []
         self.allow_capture = self.params.get("allow_capture", False)
+        self.qhelpers = False
+        self.prefix = ""
 
     def struct_src(self, s: dict) -> list[str]:
         out = ["@guppy.struct", f"class {s['name']}:"] + [f"    {f}: {t}" for f, t in s["fields"]]
@@ -446,6 +473,26 @@ class ProgGen:
             defs.append(s["name"])
         fams = {"generic": ch.draw(3, "fam_generic") == 0, "overload": ch.draw(4, "fam_over") == 0,
                 "comptime": ch.draw(3, "fam_ct") == 0, "natgen": ch.draw(4, "fam_nat") == 0}
+        self.prefix = prefix
+        fams["qhelpers"] = ch.draw(3, "fam_q") == 0
+        fams["ctarg"] = ch.draw(3, "fam_ctarg") == 0
+        fams["decl"] = ch.draw(4, "fam_decl") == 0
+        if fams["qhelpers"]:
+            self.qhelpers = True
+            src += ["@guppy", f"def {prefix}qgate(q: qubit) -> None:", "    h(q)", "    x(q)", "",
+                    "@guppy", f"def {prefix}qmeas(q: qubit @owned) -> bool:", "    h(q)",
+                    "    return measure(q)", ""]
+            defs += [f"{prefix}qgate", f"{prefix}qmeas"]
+        if fams["ctarg"]:
+            src += ["@guppy", f"def {prefix}cta(x: int, k: int @comptime) -> int:",
+                    "    acc = x", "    if k > 1:", "        acc = acc * k", "    return acc + k", ""]
+            defs.append(f"{prefix}cta")
+            for kv in (2, 3, ch.draw(3, "cta_k")):
+                sigs.append(FnSig(f"{prefix}cta", [("x", "int"), ("k", f"lit:{kv}")], "int", "ctarg"))
+        if fams["decl"]:
+            src += ["@guppy.declare", f"def {prefix}ext(x: int, y: bool) -> int: ...", ""]
+            defs.append(f"{prefix}ext")
+            sigs.append(FnSig(f"{prefix}ext", [("x", "int"), ("y", "bool")], "int", "decl"))
         if fams["generic"]:
             src += [f"{prefix}T = guppy.type_var(\"{prefix}T\")", "", "@guppy",
                     f"def {prefix}ident(x: {prefix}T) -> {prefix}T:", "    return x", "",
